@@ -32,10 +32,12 @@ PROPS = {
             {"harness": "H_C02_snapshot", "params": {"ascii": 0}, "quick": {"n": 2}, "thorough": {"n": 2}},
             {"harness": "H_C02_snapshot", "params": {"ascii": 1, "n0lo": 7, "n0hi": 7, "n1lo": 3, "n1hi": 3}},
             {"harness": "H_C02_snapshot", "params": {"ascii": 1, "n0lo": 3, "n0hi": 3, "n1lo": 7, "n1hi": 7}},
+            {"harness": "H_C02_snapshot", "params": {"ascii": 0, "n0lo": 3, "n0hi": 3, "n1lo": 1, "n1hi": 1}},
+            {"harness": "H_C02_snapshot", "params": {"ascii": 0, "n0lo": 1, "n0hi": 1, "n1lo": 3, "n1hi": 3}},
             {"harness": "H_C02_struct", "quick": {"lines": 2}, "thorough": {"lines": 2}},
             {"harness": "H_C02_standalone", "quick": {"n": 3}, "thorough": {"n": 4}},
         ],
-        "bounds": {"quick": "MatchSnapshot; ASCII texts <= 3 bytes each; arbitrary bytes <= 2 each; 7-byte vs 3-byte ASCII texts (escape token vs terminator)",
+        "bounds": {"quick": "MatchSnapshot; ASCII texts <= 3 bytes each; arbitrary bytes <= 2 each; arbitrary 3 bytes vs 1 byte; 7-byte vs 3-byte ASCII texts (escape token vs terminator)",
                    "thorough": "ASCII texts <= 5 bytes each; arbitrary bytes <= 2 each; 7 vs 3"},
         "assumptions": COMMON_ASSUME + ["no line of either text ends in a carriage return (documented limitation)"],
         "outside": [],
@@ -49,10 +51,12 @@ PROPS = {
             {"harness": "H_C13_opcodes_long", "pkg": "difflib", "params": {"lines": 210}, "quick": {"sym": 1}, "thorough": {"sym": 1}},
             {"harness": "H_C13_empty", "params": {"ascii": 1}, "quick": {"n": 3}, "thorough": {"n": 4}},
             {"harness": "H_C13_empty", "params": {"ascii": 0}, "quick": {"n": 2}, "thorough": {"n": 2}},
+            {"harness": "H_C13_empty", "params": {"ascii": 0, "nalo": 3, "nahi": 3, "nblo": 1, "nbhi": 1}},
+            {"harness": "H_C13_empty", "params": {"ascii": 0, "nalo": 1, "nahi": 1, "nblo": 3, "nbhi": 3}},
             {"harness": "H_C13_render", "quick": {"lines": 3}, "thorough": {"lines": 4}},
         ],
         "bounds": {"quick": "op-codes: all pairs of line sequences up to 4+4 lines (every equality pattern) and all pairs over a 3-letter alphabet up to 5+5 lines, 12- and 210-line sequences with one free line each; "
-                            "emptiness: ASCII texts <= 3 bytes, arbitrary bytes <= 2; rendering: <= 3 lines of one letter each, with/without final newline",
+                            "emptiness: ASCII texts <= 3 bytes, arbitrary bytes <= 2, arbitrary 3 bytes vs 1 byte (a three-byte rune against an invalid byte); rendering: <= 3 lines of one letter each, with/without final newline",
                    "thorough": "op-codes up to 5+5 lines (any alphabet), 3-letter alphabet up to 6+6, 4-letter alphabet 6+5, 12 lines with 2 free lines each; emptiness ASCII <= 4; rendering <= 4 lines"},
         "assumptions": COMMON_ASSUME + ["diffmatchpatch is summarised by: rune sequences equal <=> single Equal chunk (DESIGN 5.5)"],
         "outside": ["appearance of inline highlights (colour mode)", "line contents longer than one byte in the op-code harness (only equality of lines is observed by the code)"],
@@ -132,10 +136,11 @@ PROPS = {
         "runs": [
             {"harness": "H_C19_standalone", "quick": {"n": 3, "calls": 2}, "thorough": {"n": 5, "calls": 3}},
             {"harness": "H_C19_json", "quick": {"n": 2}, "thorough": {"n": 3}},
+            {"harness": "H_C19_mixed", "quick": {"calls": 2}, "thorough": {"calls": 4}},
             {"harness": "H_C14_invalid", "reach": ["valid", "invalid"], "quick": {"n": 2}, "thorough": {"n": 3}},
         ],
-        "bounds": {"quick": "1..2 standalone calls with arbitrary byte values <= 3 (CR allowed), two executions; JSON templates with string leaves <= 2 bytes",
-                   "thorough": "values <= 5 bytes, 1..3 calls"},
+        "bounds": {"quick": "1..2 standalone calls with arbitrary byte values <= 3 (CR allowed), two executions; JSON templates with string leaves <= 2 bytes; 2 calls of one test mixing the two standalone entry points and three Configs (default, Ext, Filename)",
+                   "thorough": "values <= 5 bytes, 1..3 calls; 2..4 mixed calls"},
         "assumptions": COMMON_ASSUME,
         "outside": ["test names containing % (the standalone path is used as a format string; see C11)"],
     },
@@ -143,13 +148,14 @@ PROPS = {
         "runs": [
             {"harness": "H_C20_outcome", "reach": ["failed", "added", "updated", "passed"], "quick": {"faults": 1}, "thorough": {"faults": 1}},
             {"harness": "H_C20_summary"},
+            {"harness": "H_C20_clean_summary", "quick": {"count": 2}, "thorough": {"count": 3}},
             {"harness": "H_C20_skips", "quick": {"skips": 3}, "thorough": {"skips": 4}},
             {"harness": "H_C20_concurrent", "stress": 20000},
             {"harness": "H_C17_matcher_errors", "quick": {"matchers": 1}, "thorough": {"matchers": 2}},
         ],
         "bounds": {"quick": "one call: CI x Update option x UPDATE_SNAPS (<= 4 bytes) x 5 entry points x entry state, every file-system operation may fail; "
-                            "a test name longer than NAME_MAX (real write failure); summary: counters in {0,1,2,11}, 0..2 obsolete files and tests, both modes; 1..3 Skip*/Skipf/SkipNow calls on TestP, TestP/child, TestQ followed by Clean",
-                   "thorough": "1..4 skip calls"},
+                            "a test name longer than NAME_MAX (real write failure); summary: counters in {0,1,2,11}, 0..2 obsolete files and tests, both modes; 1..3 Skip*/Skipf/SkipNow calls on TestP, TestP/child, TestQ followed by Clean; a program of passing/failing/recording calls run -count 1..2 times followed by Clean (printed counts = calls of the process)",
+                   "thorough": "1..4 skip calls; -count 1..3"},
         "assumptions": COMMON_ASSUME + ["MatchSnapshot is called with at least one value"],
         "outside": ["more than two goroutines; the data-race clause beyond lost updates of the counters and the skip list"],
     },
@@ -226,8 +232,9 @@ PROPS = {
         "runs": [
             {"harness": "H_C15_json", "quick": {"strlen": 2}, "thorough": {"strlen": 2, "neighbour": 1}},
             {"harness": "H_C15_multi", "quick": {"strlen": 1}, "thorough": {"strlen": 2}},
+            {"harness": "H_C15_reuse"},
         ],
-        "bounds": {"quick": "document {a:V,o:{k:V},z:[V,2]}; path a, o.k or z.0; the targeted V in 1..2-digit number / string of <= 2 bytes / true|null, the others fixed; placeholder default string, short string, number, bool; Any and Custom",
+        "bounds": {"quick": "document {a:V,o:{k:V},z:[V,2]}; path a, o.k or z.0; the targeted V in 1..2-digit number / string of <= 2 bytes / true|null, the others fixed; placeholder default string, short string, number, bool; Any and Custom; one matcher value applied to two documents in a row (the earlier lacking some of its paths); placeholders needing JSON escapes at three paths; a member named $",
                    "thorough": "one neighbouring value symbolic as well"},
         "assumptions": COMMON_ASSUME + ["tidwall/gjson (GetBytes) and tidwall/sjson (SetBytesOptions) are executed from their SSA, including their unsafe string/[]byte header casts (engine/interp/unsafe.go)"],
         "outside": ["all YAML matchers (goccy/go-yaml lexer, parser, printer and path engine cannot be encoded)", "gjson path syntax beyond plain member/index paths", "keys needing escapes"],
@@ -246,6 +253,7 @@ PROPS = {
         "runs": [
             {"harness": "H_C16_mask", "reach": ["same", "different"], "quick": {"n": 1}, "thorough": {"n": 2}},
             {"harness": "H_C16_update"},
+            {"harness": "H_C15_reuse"},
         ],
         "bounds": {"quick": "document {a:S,m:S} with string values of <= 1 byte; m masked by Any, Type[string] or Custom; variants with independent masked values and equal or different unmasked value; MatchJSON and MatchStandaloneJSON",
                    "thorough": "string values of <= 2 bytes"},
